@@ -22,6 +22,12 @@ CHECKS = {
  "C05": (EX, "DESIGN.md §3 C05", "runtime monitoring: response Update lists vs reference per-target field model",
          "Update lists of create/update/stop responses from the real adaptation are checked for one entry per target with exactly the owners' fields, own entry last, self-update failing, dropped ignore-failure updates leaking nothing.",
          "Flag value of a combined entry and blank entries for targets whose only updates were dropped are not asserted (unstated)."),
+ "C12": (EX, "DESIGN.md §3 C12", "runtime monitoring: descriptor-driven differential execution of the two generated codecs (cross-decode, round trips, size, presence)",
+         "Every message type with the specialised codec (found through the registry at run time) is populated field by field and at random; both encoders' bytes are decoded by the other decoder and compared with proto.Equal plus an explicit presence walk; SizeVT is compared with the bytes written.",
+         "Valid UTF-8 strings and non-nil repeated/map message values only; the wasm call path itself cannot be driven here, the codec pair is executed natively."),
+ "C14": (EX, "DESIGN.md §3 C14", "runtime monitoring: round-trip and aliasing oracles over generated values; exhaustive enumeration of the 8191 event masks",
+         "All 8191 event masks enumerated; every optional constructor x accepted type x boundary value; random resources/mounts/devices/hooks/env through both round trips with presence-aware comparison; Copy() compared, address-walked and mutated.",
+         "Only fields both representations carry are compared; env entries have the name=value form."),
  "C13": (EX, "DESIGN.md §3 C13", "runtime monitoring: reference interpreter vs Generator.Adjust, repeated-application determinism monitor, mount-order and untouched-remainder assertions",
          "Random specs x adjustments applied by the real generator 16/32 times each; result compared with a reference interpreter written from the statement, with itself across repetitions, and checked for parent-before-child mounts and an untouched remainder.",
          "Memory limit also setting swap is taken as intended (asserted by the repo's own suite); rshared/rslave propagation excluded (reads the host mount table)."),
